@@ -33,12 +33,13 @@ func Repo() string {
 
 // Finding is one line of known_findings.txt.
 type Finding struct {
-	Property string `json:"property"`
-	Status   string `json:"status"` // known | fixed
-	Sig      string `json:"sig"`    // anchored regular expression over violation signatures
-	What     string `json:"what"`
-	Commit   string `json:"commit,omitempty"`
-	Example  any    `json:"example,omitempty"`
+	Property string   `json:"property"`
+	Status   string   `json:"status"` // known | fixed
+	Sig      string   `json:"sig"`    // anchored regular expression over violation signatures
+	What     string   `json:"what"`
+	Commit   string   `json:"commit,omitempty"`
+	Example  any      `json:"example,omitempty"`
+	Taints   []string `json:"taints,omitempty"` // histmc: observation components this defect corrupts in descendant states
 	re       *regexp.Regexp
 }
 
@@ -166,6 +167,11 @@ func (r *Run) Finish() int {
 		fmt.Println(l)
 	}
 	os.MkdirAll(filepath.Join(Root(), "replays"), 0o755)
+	if old, _ := filepath.Glob(filepath.Join(Root(), "replays", r.Prop+"-*.json")); len(old) > 0 {
+		for _, f := range old {
+			os.Remove(f)
+		}
+	}
 	for i, s := range fresh {
 		v := r.viol[s]
 		p := filepath.Join(Root(), "replays", fmt.Sprintf("%s-%d.json", r.Prop, i))
